@@ -6,6 +6,7 @@ from ..model import AnalysisError, Program, ClassInfo, FunctionInfo, walk_functi
 from ..guards import norm, call_name, const_str, kwarg, isinstance_atom
 from ..facts import Fn, CORE, MUTATORS, assigned_from, enclosing_loops, str_format_const
 from ..effects import world, call_closure, direct_writes, WriteEvent
+from .. import guards as G
 from . import shared as S
 from .shared import fn, fn_of, yaml_calls, factory_of, DUMP_FACTORIES, REPRESENTER_ROOTS
 
@@ -225,8 +226,8 @@ def dispatch_list(P: Program, key: str) -> List[Tuple[str, str]]:
                 continue
             loop = [l for l in enclosing_loops(c, f.node) if isinstance(l, ast.For)]
             lv = norm(loop[0].target) if loop else None
-            inner = [(norm(b.ast), b.pol) for b in f.cfg.guard_nodes(f.nid(c))
-                     if loop and any(x is loop[0] for x in S._ancestors_list(b.ast))]
+            inner = sorted(G.canon_atom(b.ast, b.pol) for b in f.cfg.guard_nodes(f.nid(c))
+                           if loop and any(x is loop[0] for x in S._ancestors_list(b.ast)))
             ctor = c.args[1]
             cname = ctor.func.id if isinstance(ctor, ast.Call) and isinstance(ctor.func, ast.Name) else norm(ctor)
             arg_ok = isinstance(ctor, ast.Call) and len(ctor.args) == 1 and norm(ctor.args[0]) == lv
@@ -244,22 +245,24 @@ def r05_2_dispatch(ctx, rid='R05.2'):
     pairs = {'EnumConstructor': 'EnumRepresenter', 'UserStringConstructor': 'UserStringRepresenter', 'Constructor': 'Representer'}
     r.check(len(lo) == 3 and len(du) == 3, '3 arms on each side', 'yatiml:add_to_*:arms', 'yatiml/loader.py',
             'add_to_loader has %d arms, add_to_dumper %d' % (len(lo), len(du)))
-    want = [('issubclass({v}, enum.Enum)', 'Enum'), ('is_string_like({v})', 'UserString'), (None, '')]
     for side, lst, kinds in (('loader', lo, ['EnumConstructor', 'UserStringConstructor', 'Constructor']),
                              ('dumper', du, ['EnumRepresenter', 'UserStringRepresenter', 'Representer'])):
-        for i, (guards, cname, arg_ok, c, lv) in enumerate(lst[:3]):
-            exp = []
-            for j in range(i + 1):
-                t = want[j][0]
-                if t is None:
-                    continue
-                exp.append((t.format(v=lv), j == i))
-            ok = list(guards) == exp and cname == kinds[i] and arg_ok
-            r.check(ok, 'add_to_%s arm %d: %s -> %s(%s)' % (side, i, [g for g in exp], kinds[i], lv),
+        by_kind = {cname: (guards, arg_ok, c, lv) for guards, cname, arg_ok, c, lv in lst}
+        for i, kind in enumerate(kinds):
+            if kind not in by_kind:
+                r.fail('yatiml.%s:add_to_%s:arm%d' % (side, side, i), 'yatiml/%s.py' % side, 'add_to_%s never registers a %s' % (side, kind))
+                continue
+            guards, arg_ok, c, lv = by_kind[kind]
+            e, sl = 'issubclass(%s, enum.Enum)' % lv, 'is_string_like(%s)' % lv
+            exp = sorted([[(e, True)], [(e, False), (sl, True)], [(e, False), (sl, False)]][i])
+            ok = list(guards) == exp and arg_ok
+            r.check(ok, 'add_to_%s arm %d: %s -> %s(%s)' % (side, i, exp, kind, lv),
                     'yatiml.%s:add_to_%s:arm%d' % (side, side, i), 'yatiml/%s.py:%d' % (side, c.lineno),
-                    'add_to_%s arm %d registers %s under %s; expected %s under %s (enum before string-like before class on both '
+                    'add_to_%s registers %s under %s; expected under %s (enum before string-like before class on both '
                     'sides: a class that is both, e.g. class C(str, Enum), must get matching constructor and representer)'
-                    % (side, i, cname, list(guards), kinds[i], exp))
+                    % (side, kind, list(guards), exp))
+    lo = sorted(lo, key=lambda x: x[0])
+    du = sorted(du, key=lambda x: x[0])
     for (g1, c1, _, _, _), (g2, c2, _, _, _) in zip(lo, du):
         r.check(pairs.get(c1) == c2, '%s <-> %s' % (c1, c2), 'yatiml:add_to_*:pair:%s' % c1, 'yatiml/dumper.py',
                 'constructor %s is paired with representer %s' % (c1, c2))
